@@ -187,7 +187,8 @@ def rnd_double(rng):
         return rng.randint(-9, 9) + 0.5
     if r < 0.85:
         return rng.uniform(-1e6, 1e6)
-    return rng.choice([1e-300, -1e-300, 4503599627370497.5, -0.0, 0.0, 1e15 + 0.5, 2.5, -2.5, 0.49999999999999994])
+    # tiny values: 1e-150, not 1e-300 - width * height of two such numbers must not underflow (area == 0.0 would then differ from the exact model for a reason that is outside the property)
+    return rng.choice([1e-150, -1e-150, 4503599627370497.5, -0.0, 0.0, 1e15 + 0.5, 2.5, -2.5, 0.49999999999999994])
 
 
 def generate(rng, tier):
